@@ -9,8 +9,8 @@ original rotation (1e-6); ranges and deg = rad*180/pi are checked.
 """
 import itertools, math
 import numpy as np
-from mc import ref, alph
-from mc.core import call
+from mc import ref, alph, hist
+from mc.core import call, HarnessError
 from mc.props import c01
 
 PROP = 'C05'
@@ -46,11 +46,22 @@ def entries3(R):
         ('UnitQuaternion', lambda fn, **kw: getattr(sm.UnitQuaternion(q), fn)(**kw)),
         # the same rotation held as -q (negative scalar part), as products and angles beyond pi produce it
         ('UnitQuaternion(-q)', lambda fn, **kw: getattr(sm.UnitQuaternion(-q, norm=False, check=False), fn)(**kw)),
+        # objects that received their value by item assignment after the same extraction had been used on their previous value
+        ('SO3/hist', lambda fn, **kw: getattr(_aged(sm.SO3(R.copy()), fn, kw), fn)(**kw)),
+        ('SE3/hist', lambda fn, **kw: getattr(_aged(sm.SE3(T.copy()), fn, kw), fn)(**kw)),
+        ('UnitQuaternion/hist', lambda fn, **kw: getattr(_aged(sm.UnitQuaternion(q), fn, kw), fn)(**kw)),
     ]
 
 
+def _aged(obj, fn, kw):
+    for tag, o in hist.variants(obj, lambda x: getattr(x, fn)(**kw), fresh=False):
+        if tag == 'setitem':
+            return o
+    raise HarnessError('no item-assignment history for %s' % type(obj).__name__)
+
+
 def site_of(en, fn):
-    return ('base.tr2' + fn) if en.startswith('base') else '%s.%s' % (en.split('(')[0], fn)
+    return ('base.tr2' + fn) if en.startswith('base') else '%s.%s' % (en.split('(')[0].split('/')[0], fn)
 
 
 def vec3(ctx, cid, site, P, v):
